@@ -259,7 +259,7 @@ func fillAllTransitions(forward *NFA, builder *Builder, reverseEdges map[StateID
 		edges := reverseEdges[fwdID]
 
 		if isStart && hasIncoming {
-			fillStartStateWithIncoming(builder, revID, edges, revStateMap, matchID)
+			fillStartStateWithIncoming(builder, revID, edges, revStateMap, matchID, fwdID == fwdAnchored)
 		} else {
 			fillReverseState(builder, revID, edges, revStateMap)
 		}
@@ -402,17 +402,32 @@ func fillReverseState(builder *Builder, revID StateID, edges []reverseEdge, revS
 
 // fillStartStateWithIncoming handles forward start states that have incoming edges (loops)
 // The proxy state is already an epsilon -> match, but we need to add the loop transitions
-func fillStartStateWithIncoming(builder *Builder, proxyID StateID, edges []reverseEdge, revStateMap map[StateID]StateID, matchID StateID) {
+//
+// A byte-consuming incoming edge (e.g. `a*x`: 'a' -> loop split, which IS the start)
+// must consume that byte in the reverse NFA too; only epsilon edges may be followed
+// for free. consumeBytes is false for the forward unanchored start, whose only byte
+// edges belong to the (?s:.)*? prefix loop: that loop is deliberately not reversed,
+// because reverse searches are anchored at the match end.
+func fillStartStateWithIncoming(builder *Builder, proxyID StateID, edges []reverseEdge, revStateMap map[StateID]StateID, matchID StateID, consumeBytes bool) {
 	// The proxy is currently epsilon -> match
 	// If we have incoming edges (from loops), we need to create a split:
 	// proxyID: split -> (transitions from incoming edges), match
 
 	// Collect targets from incoming edges
 	var loopTargets []StateID
+	var mapped []reverseEdge
+	hasByteEdge := false
 	for _, edge := range edges {
 		if revTarget, ok := revStateMap[edge.from]; ok {
 			loopTargets = append(loopTargets, revTarget)
+			mapped = append(mapped, edge)
+			hasByteEdge = hasByteEdge || edge.kind != edgeEpsilon
 		}
+	}
+	if consumeBytes && hasByteEdge {
+		loop := allocatePlaceholder(builder, mapped)
+		fillReverseState(builder, loop, mapped, revStateMap)
+		loopTargets = []StateID{loop}
 	}
 
 	if len(loopTargets) == 0 {
